@@ -197,11 +197,11 @@ def C19():
 
 def C18():
     from contracts.exports import UNITS
-    from contracts.encoder import RtfEncodeEntry
+    from contracts.encoder import RtfEncodeEntry, EngineEncodeDocument, EncodeCtx
     from contracts import replayers as R
     return Property(
         "C18",
-        units=[ContractUnit(u) for u in UNITS] + [ContractUnit(RtfEncodeEntry())],
+        units=[ContractUnit(u) for u in UNITS] + [ContractUnit(RtfEncodeEntry()), ContractUnit(EngineEncodeDocument()), ContractUnit(EncodeCtx())],
         level="proof",
         technique="effect-trace contracts on the real write_rtf/write_docx/write_html/write_pdf bodies with a raise point injected at the "
                   "encode and conversion calls (before, after output, malformed result); trace obligations per exit path",
@@ -211,7 +211,7 @@ def C18():
         assumptions=["faults are injected at the encoding and conversion calls (the property's 'encoding or conversion fails'), not inside "
                      "mkdir/write_text/shutil.move; write_html's second move (resources folder) after a successful first move is outside the clause",
                      "rtf_encode() itself performs no file-system write (frame scan: separate unit, not yet in this check)"],
-        replayers={"encode.py::RTFDocument.write_": R.replay_exports, "convert.py::": R.replay_converter, "encode.py::RTFDocument.rtf_encode": R.replay_exports},
+        replayers={"encode.py::RTFDocument.write_": R.replay_exports, "convert.py::": R.replay_converter, "encode.py::RTFDocument.rtf_encode": R.replay_failing_encode_exports, "encoding/": R.replay_failing_encode_exports},
         design_ref="4/C18, A21",
     )
 
